@@ -579,7 +579,16 @@ func sortedStrict[T comparable](c *core.Ctx, tname string, gen func(*core.Rand) 
 				return
 			}
 		case 4: // out-of-range Get / RemoveAt must panic and change nothing
-			i := []int{-2, -1, len(model), len(model) + 1, math.MaxInt, math.MinInt, math.MaxInt - 1, math.MinInt + 1}[r.Intn(8)]
+			// positions that are out of range but inside it modulo 2^32, 2^16 or 2^8 included
+			in := 0
+			if len(model) > 0 {
+				in = r.Intn(len(model))
+			}
+			i := []int{-2, -1, len(model), len(model) + 1, math.MaxInt, math.MinInt, math.MaxInt - 1, math.MinInt + 1,
+				in + 1<<32, in - 1<<32, in + 5<<32, in + 1<<31, in - 1<<31, in + 1<<16, in + 1<<8, in + math.MinInt, in + 1<<62}[r.Intn(17)]
+			if i >= 0 && i < len(model) {
+				i = -1
+			}
 			which := r.Bool()
 			hist = append(hist, fmt.Sprintf("out-of-range(%d,get=%v)", i, which))
 			var p bool
